@@ -426,6 +426,17 @@ def _impl_key_public(g, x, y):
     return (int(pp[0]), int(pp[1]))
 
 
+def _impl_keys_public(x, y):
+    """through the network API: network.keys.public(pair)"""
+    k = _btc().keys.public((x, y))
+    pp = k.public_pair()
+    return (int(pp[0]), int(pp[1]))
+
+
+def _btc():
+    return dict(usable_nets())["BTC"]
+
+
 def _impl_key_private(g, e):
     return key_class(g)(secret_exponent=e).secret_exponent()
 
@@ -584,7 +595,14 @@ def model_cases(rng, tier):
             if not bl or bl[0] < 8:
                 yield Case("key_from_sec %s %s" % (ga, arg(bl)), (lambda g=g, bl=bl: call(_impl_from_sec, g, bl)))
         for _ in range(150 if quick else 3000):
-            x, y = point_on(g, rng) if rng.random() < 0.5 else (rng.randrange(-2, p + 3), rng.randrange(-2, p + 3))
+            r_ = rng.random()
+            if r_ < 0.4:
+                x, y = point_on(g, rng)
+            elif r_ < 0.7:
+                x, y = point_on(g, rng)
+                x, y = rng.choice([(x + p, y), (x, y + p), (x, y - p), (x, -y), (x - p, y), (x + p, y + p)])
+            else:
+                x, y = (rng.randrange(-2, p + 3), rng.randrange(-2, p + 3))
             yield Case("key_public %s %s %s" % (ga, arg(x), arg(y)), (lambda g=g, x=x, y=y: call(_impl_key_public, g, x, y)))
     for bits in MID_BITS:
         p = _prime_below(bits)
@@ -612,8 +630,14 @@ def model_cases(rng, tier):
         elif r < 0.4:
             x = x + rng.choice([1, P1, -P1])
         yield Case("key_public %s %s %s" % (ga, arg(x), arg(y)), (lambda x=x, y=y: call(_impl_key_public, K1, x, y)))
-    for x, y in [(0, 0), (K1[0], K1[1]), (K1[0], P1 - K1[1]), (K1[0] + P1, K1[1]), (K1[0], K1[1] + P1), (K1[0], -K1[1]), (P1, 0), (0, 7)]:
+    fixed = [(0, 0), (K1[0], K1[1]), (K1[0], P1 - K1[1]), (K1[0] + P1, K1[1]), (K1[0], K1[1] + P1), (K1[0], -K1[1]), (P1, 0), (0, 7)]
+    # unreduced names of on-curve points: they satisfy the curve equation but must be refused
+    for _ in range(60 if quick else 1500):
+        x, y = point_on(K1, rng)
+        fixed += [(x + P1, y), (x, y + P1), (x, y - P1), (x, -y), (x - P1, y), (x + P1, y + P1), (x + 2 * P1, y), (x, P1 - y)]
+    for x, y in fixed:
         yield Case("key_public %s %s %s" % (ga, arg(x), arg(y)), (lambda x=x, y=y: call(_impl_key_public, K1, x, y)))
+        yield Case("key_public %s %s %s" % (ga, arg(x), arg(y)), (lambda x=x, y=y: call(_impl_keys_public, x, y)))
     es = [-5, -1, 0, 1, 2, 3, N1 - 2, N1 - 1, N1, N1 + 1, P1, (1 << 256) - 1, 1 << 256, (1 << 256) + 1, 1 << 300, N1 // 2]
     es += [rng.getrandbits(rng.choice([8, 128, 255, 256, 257])) for _ in range(60 if quick else 1500)]
     for e in es:
@@ -798,7 +822,7 @@ def chk_key_range(sym, e):
 
 
 def chk_pubpair(x, y):
-    on = (y * y - (x * x * x + A1 * x + B1)) % P1 == 0
+    on = (y * y - (x * x * x + A1 * x + B1)) % P1 == 0 and 0 <= x < P1 and 0 <= y < P1
     net = usable_nets()[0][1]
     try:
         net.keys.public((x, y))
@@ -850,8 +874,8 @@ def prop_cases(rng, tier):
             yield PropCase("key_range", {"net": sym, "e": hex(e)}, (lambda sym=sym, e=e: chk_key_range(sym, e)))
     for _ in range(300 if quick else 6000):
         x, y = point_on(K1, rng)
-        if rng.random() < 0.5:
-            y = rng.choice([y + 1, y - 1, y + P1, rng.randrange(P1)])
+        if rng.random() < 0.6:
+            x, y = rng.choice([(x, y + 1), (x, y - 1), (x, y + P1), (x, rng.randrange(P1)), (x + P1, y), (x, y - P1), (x, -y), (x - P1, y)])
         yield PropCase("pubpair", {"x": hex(x), "y": hex(y)}, (lambda x=x, y=y: chk_pubpair(x, y)))
     # strictness on the implementation: every blob that Key.from_sec accepts is canonical
     for bl in _sec_blobs_for(K1, rng, 2500 if quick else 50000, 60 if quick else 1500, 10 ** 9):
